@@ -84,18 +84,18 @@ type FSFault struct {
 
 // Case is one faulty build of C06/C10.
 type Case struct {
-	Format   string       `json:"format"`
-	Sign     string       `json:"sign,omitempty"` // "" as configured | "callback" | "none"
-	Class    string       `json:"class"`          // sink | ref | invalid | signer | keyfile | clean
-	Sink     *SinkFault   `json:"sink,omitempty"`
-	Signer   *SignerFault `json:"signer,omitempty"`
-	FS       *FSFault     `json:"fs,omitempty"`
-	Invalid  string       `json:"invalid,omitempty"` // name of the invalid-setting class
-	Config   string       `json:"config,omitempty"`  // replacement config for invalid-setting cases
-	Env      map[string]string `json:"env,omitempty"` // replacement env (wrong passphrase)
-	GoMaxPro int          `json:"gomaxprocs,omitempty"`
-	PadDesc  int          `json:"pad_desc,omitempty"` // lengthen the description by this many bytes (alignment sweeps)
-	Key      string       `json:"key,omitempty"`      // harness key the case's configuration signs with (matrix cases)
+	Format   string            `json:"format"`
+	Sign     string            `json:"sign,omitempty"` // "" as configured | "callback" | "none"
+	Class    string            `json:"class"`          // sink | ref | invalid | signer | keyfile | clean
+	Sink     *SinkFault        `json:"sink,omitempty"`
+	Signer   *SignerFault      `json:"signer,omitempty"`
+	FS       *FSFault          `json:"fs,omitempty"`
+	Invalid  string            `json:"invalid,omitempty"` // name of the invalid-setting class
+	Config   string            `json:"config,omitempty"`  // replacement config for invalid-setting cases
+	Env      map[string]string `json:"env,omitempty"`     // replacement env (wrong passphrase)
+	GoMaxPro int               `json:"gomaxprocs,omitempty"`
+	PadDesc  int               `json:"pad_desc,omitempty"` // lengthen the description by this many bytes (alignment sweeps)
+	Key      string            `json:"key,omitempty"`      // harness key the case's configuration signs with (matrix cases)
 }
 
 type InvalidCase struct {
@@ -128,14 +128,14 @@ type Env07 struct {
 	SrcMode      string `json:"src_mode"` // rel | abs | dotdot
 	History      int    `json:"history"`  // unrelated packagings earlier in the process
 	Neighbour    bool   `json:"neighbour"`
-	Child        bool   `json:"child"` // cross-process through the CLI
+	Child        bool   `json:"child"`              // cross-process through the CLI
 	Relocate     bool   `json:"relocate,omitempty"` // build from a second copy of the tree at another path, created in reverse order
 }
 
 type C07Plan struct {
-	ProbeConfig string `json:"probe_config,omitempty"` // the configuration without a fixed mtime (negative control)
-	Envs    []Env07  `json:"envs"`
-	Formats []string `json:"formats,omitempty"` // restrict (replay)
+	ProbeConfig string   `json:"probe_config,omitempty"` // the configuration without a fixed mtime (negative control)
+	Envs        []Env07  `json:"envs"`
+	Formats     []string `json:"formats,omitempty"` // restrict (replay)
 }
 
 type C10Plan struct {
@@ -154,20 +154,20 @@ type Op struct {
 
 type C11Plan struct {
 	Histories [][]Op `json:"histories,omitempty"`
-	Perms     bool   `json:"perms,omitempty"`  // bounded-exhaustive: all 120 orders
-	Short     bool   `json:"short,omitempty"`  // all sequences of length <= 2 (+ sampled 3)
+	Perms     bool   `json:"perms,omitempty"` // bounded-exhaustive: all 120 orders
+	Short     bool   `json:"short,omitempty"` // all sequences of length <= 2 (+ sampled 3)
 	NRandom   int    `json:"n_random,omitempty"`
 	HistSeed  uint64 `json:"hist_seed,omitempty"`
 }
 
 type Client struct {
-	ID     int    `json:"id"`
-	Config int    `json:"config"` // index of the parsed Config this client uses
-	Format string `json:"format"`
-	Kind   string `json:"kind"`             // package | prepare (Get + WithDefaults + PrepareForPackager only, then parked)
-	Name   bool   `json:"name,omitempty"`   // ask for the conventional file name first
-	Validate bool `json:"validate,omitempty"` // call Config.Validate first
-	Signer bool   `json:"signer,omitempty"` // own simulated signer (deb/rpm/apk)
+	ID       int    `json:"id"`
+	Config   int    `json:"config"` // index of the parsed Config this client uses
+	Format   string `json:"format"`
+	Kind     string `json:"kind"`               // package | prepare (Get + WithDefaults + PrepareForPackager only, then parked)
+	Name     bool   `json:"name,omitempty"`     // ask for the conventional file name first
+	Validate bool   `json:"validate,omitempty"` // call Config.Validate first
+	Signer   bool   `json:"signer,omitempty"`   // own simulated signer (deb/rpm/apk)
 }
 
 type Switch struct {
@@ -176,17 +176,18 @@ type Switch struct {
 }
 
 type C12Plan struct {
-	NConfigs   int      `json:"n_configs"`
-	Clients    []Client `json:"clients"`
-	Mode       string   `json:"mode"` // baton | free
-	GoMaxProcs int      `json:"gomaxprocs"`
-	SwitchP    float64  `json:"switch_p"`
-	Guided     bool     `json:"guided"`
-	Instr        bool    `json:"instr,omitempty"` // needs the ast-instrumented build
-	InstrSwitchP float64 `json:"instr_switch_p,omitempty"`
-	SchedSeed  uint64   `json:"sched_seed"`
-	Schedule   []Switch `json:"schedule,omitempty"` // replay: the recorded switch points
-	Replay     bool     `json:"replay,omitempty"`
+	NConfigs     int      `json:"n_configs"`
+	Clients      []Client `json:"clients"`
+	Mode         string   `json:"mode"` // baton | free
+	GoMaxProcs   int      `json:"gomaxprocs"`
+	SwitchP      float64  `json:"switch_p"`
+	Guided       bool     `json:"guided"`
+	RefAfter     bool     `json:"ref_after,omitempty"` // build the sequential references after the concurrent phase (cold process-wide state during it)
+	Instr        bool     `json:"instr,omitempty"`     // needs the ast-instrumented build
+	InstrSwitchP float64  `json:"instr_switch_p,omitempty"`
+	SchedSeed    uint64   `json:"sched_seed"`
+	Schedule     []Switch `json:"schedule,omitempty"` // replay: the recorded switch points
+	Replay       bool     `json:"replay,omitempty"`
 }
 
 type Violation struct {
@@ -216,15 +217,15 @@ func (v *Violation) Key() string {
 
 // RunResult is what a worker reports per run.
 type RunResult struct {
-	Run        int               `json:"run"`
-	RunSeed    uint64            `json:"run_seed"`
-	Violations []Violation       `json:"violations,omitempty"`
-	Scenario   *Scenario         `json:"scenario,omitempty"` // present when violations exist or sampled
-	Counters   map[string]int64  `json:"counters,omitempty"`
-	Distinct   []string          `json:"distinct,omitempty"` // non-trivial case signatures
-	Sample     any               `json:"sample,omitempty"`
-	LogHash    string            `json:"log_hash,omitempty"`
-	Trouble    string            `json:"trouble,omitempty"` // harness trouble -> exit 2
-	WallMs     int64             `json:"wall_ms,omitempty"`
-	Notes      []string          `json:"notes,omitempty"`
+	Run        int              `json:"run"`
+	RunSeed    uint64           `json:"run_seed"`
+	Violations []Violation      `json:"violations,omitempty"`
+	Scenario   *Scenario        `json:"scenario,omitempty"` // present when violations exist or sampled
+	Counters   map[string]int64 `json:"counters,omitempty"`
+	Distinct   []string         `json:"distinct,omitempty"` // non-trivial case signatures
+	Sample     any              `json:"sample,omitempty"`
+	LogHash    string           `json:"log_hash,omitempty"`
+	Trouble    string           `json:"trouble,omitempty"` // harness trouble -> exit 2
+	WallMs     int64            `json:"wall_ms,omitempty"`
+	Notes      []string         `json:"notes,omitempty"`
 }
